@@ -1,6 +1,7 @@
 """C05 — resuming from a checkpoint equals never having stopped (live splits and stop/restore cycles)."""
 from __future__ import annotations
 
+import copy
 import json
 import warnings
 from pathlib import Path
@@ -24,6 +25,9 @@ def gen_cfg(rng, k_samplers=None):
     if lineup[0][0] in ("BestBatchSampler", "GaussianProcessSampler", "RandomForestSampler", "XGBoostSampler", "CORSSampler", "ParticleSwarmSampler") \
             or lineup[0][1] < 2:
         lineup.insert(0, ("HaltonSampler", 4, None))   # history-free first batch, large enough for best-batch (needs >= batch_size points)
+    # with the RL scheduler the first batch comes from the line-up's own Halton sampler when it has one: it too must provide enough points for a
+    # best-batch sampler that the agent may choose next (the library rejects that configuration with a ValueError — a user error, not the subject here)
+    lineup = [(nm, max(bs, 2) if nm == "HaltonSampler" else bs, cs) for (nm, bs, cs) in lineup]
     return {"lineup": lineup, "dims": rng.randint(1, 4), "loss": rng.choice(twin.LOSSES), "ensemble": rng.randint(1, 3),
             "seed": rng.randrange(10 ** 6), "n_jobs": 1}
 
@@ -165,8 +169,18 @@ def run(chk: Check):
         cfg["explicit_checkpoints"] = True
         n = rng.randint(6, 9)
         comps = []
+        first_cut_min = 1
+        if i % 2 == 0:
+            # the folder given to create_checkpoint() already holds the checkpoint of another calibration with the same shapes but another
+            # loss function (same class with another option, or another class), and this run's first checkpoint is taken after >= 2 batches
+            cfg["loss"] = rng.choice(["minkowski", "msm", "minkowski_p1"])
+            cfg["leftover"] = {**copy.deepcopy(cfg), "loss": {"minkowski": "minkowski_p1", "msm": "msm_std", "minkowski_p1": "msm"}[cfg["loss"]],
+                               "seed": rng.randrange(10 ** 6), "batches": rng.randint(1, 3)}
+            cfg["leftover"].pop("explicit_checkpoints")
+            first_cut_min = 2
+            chk.count("explicit_checkpoints:folder_holds_another_calibration")
         for _ in range(2):
-            cuts = sorted(rng.sample(range(1, n), rng.randint(2, 3)))
+            cuts = sorted(rng.sample(range(first_cut_min, n), rng.randint(2, 3)))
             seg, prev = [], 0
             for cpt in cuts:
                 seg.append((cpt - prev, rng.choice(["restore", "restore", "live"]))); prev = cpt
